@@ -24,6 +24,21 @@ var c14Counts = map[string]int{"quick": 30_000, "thorough": 600_000}
 func c14Gen(r *gen.Rng, tier string, idx int) interface{} {
 	c := &C14Case{Domain: []string{"cnf", "cnf", "card", "pb"}[r.Intn(4)], AMO: r.Chance(1, 3), Limit: []int{0, 0, 3}[r.Intn(3)]}
 	big := r.Chance(1, 6) // larger instances: up to 14 variables, more constraints, larger coefficients
+	if r.Chance(1, 25) { // larger pure CNF under cutting planes: hundreds to thousands of conflicts, Luby restarts, PB clause deletion
+		c.Domain = "bigcnf"
+		c.AMO = false
+		var cnf [][]int
+		var n int
+		if r.Chance(1, 3) {
+			h := r.Range(4, 6)
+			cnf, n = gen.Pigeonhole(h+1, h)
+		} else {
+			n = r.Range(30, 50)
+			cnf = gen.Random3SAT(r, n, 3, r.Range(400, 470))
+		}
+		c.P = ref.CNFToProblem(cnf, n)
+		return c
+	}
 	if r.Chance(1, 20) { // pigeonhole with cardinality constraints, beyond the truth table: the verdict is known by construction
 		c.Domain = "php"
 		h := r.Range(3, 6)
@@ -193,7 +208,7 @@ func InstallCPHooks() {
 func c14Build(c *C14Case, rec *Rec, scen string) (pb *solver.Problem) {
 	rec.Guard(scen+"/build", func() {
 		switch c.Domain {
-		case "cnf":
+		case "cnf", "bigcnf":
 			var cnf [][]int
 			for _, l := range c.P.Cons {
 				cnf = append(cnf, append([]int{}, l.Lits...))
@@ -216,6 +231,9 @@ func c14Build(c *C14Case, rec *Rec, scen string) (pb *solver.Problem) {
 
 func c14Run(ci interface{}, rec *Rec) {
 	c := ci.(*C14Case)
+	if ConcurrentMode && c.Domain == "bigcnf" {
+		return // too slow under the race detector; C01's large instances play that role in C16
+	}
 	p := c.P
 	n := p.N
 	var models []uint32
@@ -223,6 +241,17 @@ func c14Run(ci interface{}, rec *Rec) {
 	min := 0
 	if c.Domain == "php" {
 		sat = len(p.Cons[0].Lits) >= len(p.Cons[len(p.Cons)-1].Lits) // holes >= pigeons
+	} else if c.Domain == "bigcnf" {
+		var cnf [][]int
+		for _, l := range p.Cons {
+			cnf = append(cnf, l.Lits)
+		}
+		var ok bool
+		sat, _, ok = ref.DPLL(cnf, n, nil, 400_000_000)
+		if !ok {
+			rec.Inconclusive("reference DPLL budget exhausted (n=%d)", n)
+			return
+		}
 	} else {
 		models = p.Models(n)
 		sat = len(models) > 0
@@ -245,12 +274,23 @@ func c14Run(ci interface{}, rec *Rec) {
 		var s *solver.Solver
 		var model []bool
 		x := &c14ctx
+		if ConcurrentMode {
+			x = &struct {
+				rec    *Rec
+				scen   string
+				models []uint32
+				n      int
+				active bool
+				solver *solver.Solver
+				done   bool
+			}{} // tasks run in parallel: the shared hook context is not used
+		}
 		x.rec, x.scen, x.models, x.n, x.done = rec, scen, models, n, false
 		panicked := rec.Guard(scen, func() {
 			s = solver.New(pb)
 			s.CuttingPlanes = cp
 			x.solver = s
-			x.active = cp && entry == "Solve" && c.Domain != "php" // learned constraints are only comparable with the original problem when no bound constraint was added
+			x.active = cp && entry == "Solve" && c.Domain != "php" && c.Domain != "bigcnf" && !ConcurrentMode // learned constraints are only comparable with the original problem when no bound constraint was added
 			defer func() { x.active = false }()
 			switch entry {
 			case "Solve":
@@ -280,6 +320,10 @@ func c14Run(ci interface{}, rec *Rec) {
 			rec.Count("cp_conflicts", s.Stats.NbConflicts)
 			rec.Count("cp_deleted", s.Stats.NbDeleted)
 			rec.Max("cp_max_conflicts_in_one_run", s.Stats.NbConflicts)
+			rec.Count("cp_restarts", s.Stats.NbRestarts)
+			if s.Stats.NbRestarts > 0 {
+				rec.Count("cp_runs_with_restart", 1)
+			}
 			if s.Stats.NbConflicts > 0 {
 				rec.Count("cp_runs_with_conflicts", 1)
 			}
@@ -291,7 +335,7 @@ func c14Run(ci interface{}, rec *Rec) {
 				rec.Viol(scen, "wrong-verdict", "Sat-for-unsat", "answered Sat but the problem has no model")
 				return
 			}
-			if c.Domain == "php" {
+			if c.Domain == "php" || c.Domain == "bigcnf" {
 				if bad := firstViolatedBools(p, model); bad >= 0 {
 					rec.Viol(scen, "bad-model", "Model", "model %v violates constraint #%d: %s", model, bad, p.Cons[bad])
 				}
@@ -345,9 +389,9 @@ func init() {
 		Setup: func(string) {
 			InstallSeqHooks()
 			InstallCPHooks()
-			solver.VerifHooks.StepBudget = 300_000 // <= 12 variables: far above any legitimate search
+			solver.VerifHooks.StepBudget = 3_000_000 // far above any legitimate search on these sizes (the largest observed run stays below 10% of it)
 		},
-		Rule: "random problems over 2..12 variables in three domains - pure CNF (3-SAT around the threshold, AMO-rich, pigeonhole, mixed), cardinality, PB with signed coefficients - with or without a cost function and with or without prior DetectAtMostOne; each is solved (and, with a cost function, optimised through Optimal and Minimize) with CuttingPlanes off and on: both answers are judged by the truth table and compared with each other; during Solve with the strategy on, every constraint the analysis reports through the verifPB hook (conflict, reason, rounded, resolvent, final, learned constraint, learned top-level units) must be implied by the problem and a top-level conflict requires an unsatisfiable problem; a step budget of 3e5 loop iterations decides termination. " +
+		Rule: "random problems over 2..12 variables in three domains - pure CNF (3-SAT around the threshold, AMO-rich, pigeonhole, mixed), cardinality, PB with signed coefficients - with or without a cost function and with or without prior DetectAtMostOne; each is solved (and, with a cost function, optimised through Optimal and Minimize) with CuttingPlanes off and on: both answers are judged by the truth table and compared with each other; during Solve with the strategy on, every constraint the analysis reports through the verifPB hook (conflict, reason, rounded, resolvent, final, learned constraint, learned top-level units) must be implied by the problem and a top-level conflict requires an unsatisfiable problem; plus pure CNF on 30..50 variables / clause-form pigeonhole under cutting planes (hundreds to thousands of conflicts: Luby restarts, deletion of learned PB constraints; reference by DPLL); a step budget of 3e6 loop iterations decides termination. " +
 			"non-trivial = problem with >= 3 constraints; distinct by problem and options",
 		Assumptions: []string{
 			"reference truth table of internal/ref",
